@@ -1,5 +1,6 @@
 import RModel.Driver.State
 import RModel.Impl.BSI
+import RModel.Impl.BSI32
 /-!
 Plane-level (L2) tracking of roaring64 bit-sliced indexes: next to the column→value map used by `Driver/Bsi.lean`,
 the checker replays `bnew` / `bset` / `bsetbig` / `bclr` / `bclone` / `bretainset` on the plane model `Impl/BSI.lean`
@@ -8,6 +9,11 @@ the checker replays `bnew` / `bset` / `bsetbig` / `bclr` / `bclone` / `bretainse
 * `bcmp …`     — the result of the modelled plane-algebra fast path `BSI.compareInt64Value` with the Go result.
 An operation that is not modelled at plane level forgets the plane state of the indexes it changes (they are simply no
 longer compared).
+
+The second half of the file does the same for 32-bit indexes (`BitSliceIndexing.BSI`, plane model `Impl/BSI32.lean`, hook
+`BitSliceIndexing.VerifBSIPlanes`): `bnew/bset/bsetmany/bclr/bclone/bretainset/bmarsh/bparor/badd/binc/bincall/bopt` are
+replayed on the planes, `bplanes` compares them, and `bcmp/beq/bsum/bminmax/bget/bexists/bcard` are also answered by the
+plane-level query algorithms.
 -/
 namespace RModel.Driver
 open RModel
@@ -18,7 +24,7 @@ def parseOp (s : String) : Option BSI.Op :=
   | _ => none
 
 /-- state update only (no verdict): called for every line before the command families -/
-def trackBsiL2 (st : St) (cmd : List String) : St :=
+def trackBsi64L2 (st : St) (cmd : List String) : St :=
   let forget (names : List String) : St := { st with bsiL2 := names.foldl (fun m n => m.erase n) st.bsiL2 }
   match cmd with
   | ["bnew", s, "64"] => { st with bsiL2 := st.bsiL2.insert s (BSI.new 0 0, false) }
@@ -59,7 +65,7 @@ def trackBsiL2 (st : St) (cmd : List String) : St :=
   | _ => st
 
 /-- extra plane-level checks on lines the map-level family already accepted -/
-def checkBsiL2 (st : St) (cmd : List String) (got : String) : Verdict :=
+def checkBsi64L2 (st : St) (cmd : List String) (got : String) : Verdict :=
   match cmd with
   | ["bplanes", s] =>
     match st.bsiL2[s]? with
@@ -89,5 +95,229 @@ def checkBsiL2 (st : St) (cmd : List String) (got : String) : Verdict :=
       | _, _, _ => none
     | _, _ => none
   | _ => none
+
+/-! ### 32-bit indexes (`BitSliceIndexing.BSI`): plane model `Impl/BSI32.lean`
+
+The plane state of a 32-bit index lives in the same table `St.bsiL2` (a name denotes one index; `St.bsi[name].is64` says
+which implementation it is).  The carrier `(RModel.BSI × Bool)` holds the planes, the existence set and "not auto-sized";
+`MaxValue` / `MinValue` are only ever observed through `MaxValue == 0 && MinValue == 0`, and a fixed-width index never has
+fewer planes than `NewBSI(MaxValue, MinValue)` allocates, so nothing else is needed to replay the commands. -/
+
+def toIdx32 (p : RModel.BSI × Bool) : BSI32.Index :=
+  { planes := p.1.planes, ebm := p.1.ebm, maxValue := if p.2 then 1 else 0, minValue := 0 }
+
+def ofIdx32 (b : BSI32.Index) : RModel.BSI × Bool := ({ planes := b.planes, ebm := b.ebm }, !BSI32.auto b)
+
+/-- the name denotes a 32-bit index (map-level state) -/
+def isBsi32 (st : St) (s : String) : Bool :=
+  match st.bsi[s]? with
+  | some b => !b.is64
+  | none => false
+
+def idx32? (st : St) (s : String) : Option BSI32.Index :=
+  if isBsi32 st s then (st.bsiL2[s]?).map toIdx32 else none
+
+def inI64 (v : Int) : Bool := decide (-9223372036854775808 ≤ v) && decide (v ≤ 9223372036854775807)
+
+/-- found-set token of a 32-bit index: outer `none` = undefined; `some none` = nil -/
+def fs32? (st : St) (b : BSI32.Index) (tok : String) : Option (Option BSet) :=
+  if tok == "-" then some none else if tok == "@" then some (some b.ebm) else (st.bm[tok]?).map some
+
+def parseOp32 (s : String) : Option BSI32.Op :=
+  match s with
+  | "LT" => some .LT | "LE" => some .LE | "EQ" => some .EQ | "GE" => some .GE | "GT" => some .GT | "RANGE" => some .RANGE
+  | _ => none
+
+/-- state update for commands whose subject is a 32-bit index; `none` = not such a command.
+`st` is the state AFTER the map-level family handled the line. -/
+def trackBsi32L2 (st : St) (cmd : List String) : Option St :=
+  let put (n : String) (b : BSI32.Index) : Option St := some { st with bsiL2 := st.bsiL2.insert n (ofIdx32 b) }
+  let forget (n : String) : Option St := some { st with bsiL2 := st.bsiL2.erase n }
+  let keepSt : Option St := some st
+  match cmd with
+  | ["bnew", s, "32"] => put s BSI32.newDefault
+  | ["bnew", s, "32", mx, mn] =>
+    match mx.toInt?, mn.toInt? with
+    | some a, some b => if inI64 a && inI64 b then put s (BSI32.new a b) else keepSt
+    | _, _ => keepSt
+  | ["bset", s, c, v] =>
+    if !isBsi32 st s then none else
+    match idx32? st s, c.toNat?, v.toInt? with
+    | some b, some col, some val => if col < U32 && inI64 val then put s (BSI32.setValue b col val) else keepSt
+    | none, _, _ => keepSt
+    | _, _, _ => keepSt
+  | ["bsetmany", s, f, v] =>
+    if !isBsi32 st s then none else
+    match idx32? st s, v.toInt? with
+    | some b, some val =>
+      match fs32? st b f with
+      | some (some x) => if inI64 val then put s (BSI32.setMany b x val) else keepSt
+      | _ => keepSt
+    | _, _ => keepSt
+  | ["bclr", s, f] =>
+    if !isBsi32 st s then none else
+    match idx32? st s with
+    | some b =>
+      match fs32? st b f with
+      | some (some x) => put s (BSI32.clearValues b x)
+      | _ => keepSt
+    | none => keepSt
+  | ["bclone", t, s] =>
+    if !isBsi32 st s then none else
+    match idx32? st s with
+    | some b => put t (BSI32.clone b)
+    | none => forget t
+  | ["bretainset", t, s, f] =>
+    if !isBsi32 st s then none else
+    match idx32? st s with
+    | some b =>
+      match fs32? st b f with
+      | some (some x) => put t (BSI32.retainSet b x)
+      | _ => keepSt
+    | none => forget t
+  | ["bmarsh", t, s] =>
+    if !isBsi32 st s then none else
+    match idx32? st s with
+    | some b => put t (BSI32.unmarshalFrom b b)      -- the receiver `NewBSI(max, min)` never has more planes than `s`
+    | none => forget t
+  | ["bmarsh", t, s, u] =>
+    if !isBsi32 st s then none else
+    -- the map-level family has already consumed `u` when the command was accepted
+    if t == u then forget t else
+    match st.bsi[u]? with
+    | some _ => keepSt       -- skipped (same name / other kind): nothing happened
+    | none =>
+      match idx32? st s, (st.bsiL2[u]?).map toIdx32 with
+      | some b, some r => (put t (BSI32.unmarshalFrom r b)).map (fun st' => if t == u then st' else { st' with bsiL2 := st'.bsiL2.erase u })
+      | _, _ => (forget t).map (fun st' => { st' with bsiL2 := st'.bsiL2.erase u })
+  | "bparor" :: s :: w :: ts =>
+    if !isBsi32 st s then none else
+    match idx32? st s, w.toNat? with
+    | some b, some wn =>
+      if wn > 64 || ts.isEmpty || !(ts.all (isBsi32 st)) then keepSt
+      else if ts.contains s then forget s
+      else match ts.mapM (idx32? st) with
+        | some bs => put s (BSI32.parOr b bs)
+        | none => forget s
+    | none, _ => keepSt
+    | _, _ => keepSt
+  | ["badd", s, t] =>
+    if !isBsi32 st s then none else
+    if !isBsi32 st t then keepSt
+    else if s == t then forget s
+    else match idx32? st s, idx32? st t with
+      | some b, some o => put s (BSI32.addIndex b o)
+      | _, _ => forget s
+  | ["binc", s, f] =>
+    if !isBsi32 st s then none else
+    match idx32? st s with
+    | some b =>
+      match fs32? st b f with
+      | some fs => put s (BSI32.increment b fs)
+      | none => keepSt
+    | none => keepSt
+  | ["bincall", s] =>
+    if !isBsi32 st s then none else
+    match idx32? st s with
+    | some b => put s (BSI32.increment b (some b.ebm))
+    | none => keepSt
+  | ["bopt", s] => if !isBsi32 st s then none else keepSt        -- RunOptimize: representation only
+  | "btwc" :: t :: s :: _ => if !isBsi32 st s then none else forget t
+  | _ => none
+
+/-- the index a `b…` command operates on is a 32-bit one (copies: the SOURCE index) -/
+def subjectIs32 (st : St) (cmd : List String) : Bool :=
+  match cmd with
+  | "bnew" :: _ => false
+  | c :: a0 :: a1 :: _ =>
+    if c == "bclone" || c == "bretainset" || c == "bmarsh" || c == "bstream" || c == "btwc" then isBsi32 st a1
+    else isBsi32 st a0
+  | [_, a0] => isBsi32 st a0
+  | _ => false
+
+/-- state update only (no verdict): called for every line after the command families -/
+def trackBsiL2 (st : St) (cmd : List String) : St :=
+  match trackBsi32L2 st cmd with
+  | some st' => st'
+  | none =>
+    -- a command on a 32-bit index that the 32-bit tracker does not know (64-bit-only operations: skipped by the harness,
+    -- pure queries) must never be replayed on the 64-bit plane model
+    if subjectIs32 st cmd then st else trackBsi64L2 st cmd
+
+/-- plane-level checks of queries on a tracked 32-bit index (state BEFORE the line); `none` = not such a line -/
+def checkBsi32L2 (st : St) (cmd : List String) (got : String) : Option Verdict :=
+  let first := (got.splitOn " ").headD ""
+  let verdict (what exp act : String) : Option Verdict :=
+    some (if got.startsWith "skip" || exp == act then none else some ("plane model (Impl/BSI32." ++ what ++ "): " ++ exp))
+  match cmd with
+  | "bcmp" :: _ :: s :: _ :: op :: rest =>
+    if !isBsi32 st s then none else
+    match idx32? st s, parseOp32 op with
+    | some b, some o =>
+      let (k, k2, f) : Option Int × Option Int × String :=
+        match o, rest with
+        | .RANGE, [a, c] => (a.toInt?, c.toInt?, "-")
+        | .RANGE, [a, c, f] => (a.toInt?, c.toInt?, f)
+        | .RANGE, _ => (none, none, "-")
+        | _, [a] => (a.toInt?, some 0, "-")
+        | _, [a, f] => (a.toInt?, some 0, f)
+        | _, _ => (none, none, "-")
+      match k, k2, fs32? st b f with
+      | some kv, some kv2, some fs =>
+        if inI64 kv && inI64 kv2 then verdict "compareValue" (digest (BSI32.compareValue b o kv kv2 fs)) first else some none
+      | _, _, _ => some none
+    | _, _ => some none
+  | "beq" :: _ :: s :: _ :: vals =>
+    if !isBsi32 st s then none else
+    match idx32? st s, vals.mapM (fun (v : String) => v.toInt?) with
+    | some b, some vs =>
+      if vs.all inI64 then
+        match BSI32.batchEqual b vs with
+        | some r => verdict "batchEqual" (digest r) first
+        | none => some none
+      else some none
+    | _, _ => some none
+  | ["bsum", s, f] =>
+    if !isBsi32 st s then none else
+    match idx32? st s with
+    | some b =>
+      match fs32? st b f with
+      | some fs => let r := BSI32.sum b fs; verdict "sum" (toString r.1 ++ " " ++ toString r.2) got
+      | none => some none
+    | none => some none
+  | ["bminmax", s, _, op, f] =>
+    if !isBsi32 st s then none else
+    match idx32? st s with
+    | some b =>
+      match fs32? st b f with
+      | some fs =>
+        if op == "MIN" || op == "MAX" then verdict "minMax" (toString (BSI32.minMax b (op == "MAX") fs)) got else some none
+      | none => some none
+    | none => some none
+  | ["bget", s, c] =>
+    if !isBsi32 st s then none else
+    match idx32? st s, c.toNat? with
+    | some b, some col =>
+      if col < U32 then
+        verdict "getValue" (match BSI32.getValue b col with | some v => toString v ++ " true" | none => "0 false") got
+      else some none
+    | _, _ => some none
+  | ["bexists", s, c] =>
+    if !isBsi32 st s then none else
+    match idx32? st s, c.toNat? with
+    | some b, some col => if col < U32 then verdict "valueExists" (bstr (BSI32.valueExists b col)) got else some none
+    | _, _ => some none
+  | ["bcard", s] =>
+    if !isBsi32 st s then none else
+    match idx32? st s with
+    | some b => verdict "cardinality" (toString (BSI32.cardinality b)) got
+    | none => some none
+  | _ => none
+
+/-- extra plane-level checks on lines the map-level family already accepted -/
+def checkBsiL2 (st : St) (cmd : List String) (got : String) : Verdict :=
+  match checkBsi32L2 st cmd got with
+  | some v => v
+  | none => checkBsi64L2 st cmd got
 
 end RModel.Driver
